@@ -18,7 +18,8 @@ class LSim(mosaik_api_v3.Simulator):
     """in-process simulator with an injectable fault; step/get_data yield once so that several simulators are in flight"""
     def __init__(self):
         super().__init__({'api_version': '3.0', 'type': 'time-based', 'models': {'M': {'public': True, 'params': [], 'attrs': ['i', 'po']}}})
-    def init(self, sid, time_resolution=1.0, fault=None, typ='time-based', hold=False, **kw):
+    def init(self, sid, time_resolution=1.0, fault=None, typ='time-based', hold=False, unser=False, **kw):
+        self.unser = unser        # its output value cannot be JSON-encoded (a set)
         self.sid = sid; self.fault = fault; self.n = {'step': 0, 'get_data': 0}; self.typ = typ; self.hold = hold
         self.meta['type'] = typ
         return self.meta
@@ -56,7 +57,7 @@ class LSim(mosaik_api_v3.Simulator):
         self._seen()
         yield asyncio.sleep(0)
         self._fault('get_data')
-        return {'e': {'po': self.n['step']}}
+        return {'e': {'po': {1, 2} if self.unser else self.n['step']}}
     def finalize(self):
         FINALIZED[self.sid] += 1
 
@@ -124,7 +125,8 @@ def one(topology, faulty, fkind, req, index, remote):
     logf = tempfile.mktemp(prefix='c14-', suffix='.log', dir=common.BUILD)
     n = 2 if topology in ('pair', 'trig') else 3      # 'trigfree': A -> B (event-based, waits for triggers) and an unconnected third simulator
     cfg = {'L': {'python': 'harness.props.c14:LSim'}, 'P': {'python': 'harness.props.c14:PSim'}, 'O': {'python': 'harness.props.c14:OSim'},
-           'R': {'cmd': f'{common.PY} -m harness.remote_sim %(addr)s', 'env': {'PYTHONPATH': f'{common.REPO}:{common.VERIF}', 'LOGURU_LEVEL': 'CRITICAL'}}}
+           'R': {'cmd': f'{common.PY} -m harness.remote_sim %(addr)s', 'env': {'PYTHONPATH': f'{common.REPO}:{common.VERIF}', 'LOGURU_LEVEL': 'CRITICAL'}},
+           'RA': {'cmd': f'{common.PY} -m harness.remote_sim %(addr)s', 'env': {'PYTHONPATH': f'{common.REPO}:{common.VERIF}', 'LOGURU_LEVEL': 'CRITICAL', 'VERIF_RSIM_ASK': '1'}}}
     tw = TaskWarnings(); alog = logging.getLogger('asyncio'); old_level = alog.level
     alog.addHandler(tw); alog.setLevel(logging.ERROR)
     errors = []
@@ -147,13 +149,17 @@ def one(topology, faulty, fkind, req, index, remote):
         ents = []
         for i in range(n):
             fault = [req, index, fkind] if i == faulty else None
-            if i == faulty and remote:
+            if i == faulty and remote and fkind.startswith('askbad'):
+                ents.append(w.start('RA', sim_id=f'S{i}', beh={'type': 'time-based', 'step_size': 1, 'default_output': [None, ['po']]}, log=logf, seed=i, fault=fault).M())
+            elif i == faulty and remote:
                 ents.append(w.start('R', sim_id=f'S{i}', beh={'type': 'time-based', 'step_size': 1, 'default_output': [None, ['po']]}, log=logf, seed=i, fault=fault).M())
             elif remote == 'all':
                 ents.append(w.start('R', sim_id=f'S{i}', beh={'type': 'time-based', 'step_size': 1, 'default_output': [None, ['po']]}, log=logf, seed=i, fault=None).M())
             else:
-                ents.append(w.start('O' if (i == faulty and ':old:' in fkind) else 'P' if (i == faulty and ':plain:' in fkind) else 'L', sim_id=f'S{i}', fault=fault, hold=(':held' in fkind and i != faulty), typ=('event-based' if topology in ('trig', 'trigfree') and i == 1 else 'time-based')).M())
-        for i in range((n - 1) if topology not in ('free', 'trigfree') else 1):
+                ents.append(w.start('O' if (i == faulty and ':old:' in fkind) else 'P' if (i == faulty and ':plain:' in fkind) else 'L', sim_id=f'S{i}', fault=fault, hold=(':held' in fkind and i != faulty), unser=(fkind.startswith('askbad') and i == 0), typ=('event-based' if topology in ('trig', 'trigfree') and i == 1 else 'time-based')).M())
+        if topology == 'ask':
+            w.connect(ents[0], ents[1], async_requests=True)      # S1 may ask S0 for data; nothing else is connected
+        for i in range(0 if topology == 'ask' else (n - 1) if topology not in ('free', 'trigfree') else 1):
             w.connect(ents[i], ents[i + 1], ('po', 'i'))      # 'free': A->B and an unconnected third simulator
         try:
             w.run(until=4, print_progress=False)
@@ -249,6 +255,10 @@ def cases(tier):
     for fk, req, index in (('raise:ownloop', 'step', 1), ('raise:ownloop', 'get_data', 0), ('none:ownloop', 'step', 99), ('raise:plain:ownloop:RuntimeError', 'step', 0)):
         out.append(('pair', 0, fk, req, index, False))
         out.append(('chain', 1, fk, req, index, False))
+    # a remote simulator asks mosaik, in the middle of its step, for data that cannot be sent to it (not JSON-encodable): its
+    # request fails, the run ends with that failure reported and everything is cleaned up
+    for index in (0, 2):
+        out.append(('ask', 1, 'askbad:S0', 'step', index, True))
     # healthy simulators that are suspended inside their step (on a timer) at the moment of the failure
     for topology, faulty in (('free', 2), ('free', 0), ('pair', 1), ('chain', 2)):
         for fk, req, index in (('raise:held', 'step', 1), ('raise:held', 'step', 2), ('raise:plain:held:RuntimeError', 'step', 1), ('raise:held@3', 'step', 1)):
